@@ -49,80 +49,86 @@ theorem clusterOff_lt_of_lt (fs : FsState) {a b : Nat} (ha : 2 ≤ a) (h : a < b
   rw [← clusterOff_succ fs a ha]
   exact clusterOff_mono fs h
 
-theorem ChainCore.slotGeo (C : ChainCore d f0 c0 chain) :
-    SlotGeo (chain.length * (d.fs.clusterSize / 32)) (chainSrc d.fs chain) := by
-  have hcs := C.geo.cs_pos
-  have h32 := C.cs32
-  have hK : 32 * (d.fs.clusterSize / 32) = d.fs.clusterSize := by
-    have := Nat.div_add_mod d.fs.clusterSize 32; omega
-  have hT : ∀ i, i < chain.length * (d.fs.clusterSize / 32) → 32 * i + 32 ≤ chain.length * d.fs.clusterSize := by
+theorem slotGeo_of {fs : FsState} {sz : Nat} {chain : List Nat} (hgeo : Geo fs sz) (hc32 : fs.clusterSize % 32 = 0)
+    (hin : ∀ x ∈ chain, 2 ≤ x) (hnd0 : chain.Nodup) :
+    SlotGeo (chain.length * (fs.clusterSize / 32)) (chainSrc fs chain) := by
+  have hcs := hgeo.cs_pos
+  have h32 := hc32
+  have hK : 32 * (fs.clusterSize / 32) = fs.clusterSize := by
+    have := Nat.div_add_mod fs.clusterSize 32; omega
+  have hT : ∀ i, i < chain.length * (fs.clusterSize / 32) → 32 * i + 32 ≤ chain.length * fs.clusterSize := by
     intro i hi
-    have : 32 * (chain.length * (d.fs.clusterSize / 32)) = chain.length * d.fs.clusterSize := by
+    have : 32 * (chain.length * (fs.clusterSize / 32)) = chain.length * fs.clusterSize := by
       rw [Nat.mul_left_comm, hK]
     omega
-  have hidx : ∀ i, i < chain.length * (d.fs.clusterSize / 32) → 32 * i / d.fs.clusterSize < chain.length :=
+  have hidx : ∀ i, i < chain.length * (fs.clusterSize / 32) → 32 * i / fs.clusterSize < chain.length :=
     fun i hi => div_lt_of_lt_mul hcs (by have := hT i hi; omega)
-  have hmod : ∀ i, 32 * i % d.fs.clusterSize + 32 ≤ d.fs.clusterSize := by
+  have hmod : ∀ i, 32 * i % fs.clusterSize + 32 ≤ fs.clusterSize := by
     intro i
-    have h1 : 32 * i % d.fs.clusterSize % 32 = 0 := by
+    have h1 : 32 * i % fs.clusterSize % 32 = 0 := by
       rw [Nat.mod_mod_of_dvd _ (Nat.dvd_of_mod_eq_zero h32)]; omega
     have := Nat.mod_lt (32 * i) hcs
     omega
-  have hfirst : d.fs.firstDataSector * d.fs.bps ≤ clusterOff d.fs 2 := by
+  have hfirst : fs.firstDataSector * fs.bps ≤ clusterOff fs 2 := by
     unfold clusterOff; simp
-  have h42 : 0x42 ≤ d.fs.firstDataSector * d.fs.bps := by
-    have := C.geo.status_lt
-    have := C.geo.fat_data
-    have : (fatSliceOf d.fs).size ≤ (fatSliceOf d.fs).mirrors * (fatSliceOf d.fs).size :=
-      Nat.le_mul_of_pos_left _ C.geo.mirrors_pos
+  have h42 : 0x42 ≤ fs.firstDataSector * fs.bps := by
+    have := hgeo.status_lt
+    have := hgeo.fat_data
+    have : (fatSliceOf fs).size ≤ (fatSliceOf fs).mirrors * (fatSliceOf fs).size :=
+      Nat.le_mul_of_pos_left _ hgeo.mirrors_pos
     omega
   constructor
   · intro i hi
     have hlt := hidx i hi
-    have hmem : chain[32 * i / d.fs.clusterSize] ∈ chain := List.getElem_mem hlt
-    have hc2 := (C.inTab _ hmem).1
+    have hmem : chain[32 * i / fs.clusterSize] ∈ chain := List.getElem_mem hlt
+    have hc2 := hin _ hmem
     unfold chainSrc
     rw [List.getD_eq_getElem?_getD, List.getElem?_eq_getElem hlt]
     simp only [Option.getD]
-    have := clusterOff_mono d.fs hc2
+    have := clusterOff_mono fs hc2
     omega
   · intro i j hi hj hij
     have hli := hidx i hi
     have hlj := hidx j hj
-    have hnd := chain_nodup' C.link
+    have hnd := hnd0
     unfold chainSrc
     rw [List.getD_eq_getElem?_getD, List.getD_eq_getElem?_getD, List.getElem?_eq_getElem hli,
       List.getElem?_eq_getElem hlj]
     simp only [Option.getD]
-    have hci := (C.inTab _ (List.getElem_mem hli)).1
-    have hcj := (C.inTab _ (List.getElem_mem hlj)).1
+    have hci := hin _ (List.getElem_mem hli)
+    have hcj := hin _ (List.getElem_mem hlj)
     have hmi := hmod i
     have hmj := hmod j
-    by_cases hq : 32 * i / d.fs.clusterSize = 32 * j / d.fs.clusterSize
+    by_cases hq : 32 * i / fs.clusterSize = 32 * j / fs.clusterSize
     · -- same cluster: different offsets in it
-      have hdi := decomp (32 * i) d.fs.clusterSize hcs
-      have hdj := decomp (32 * j) d.fs.clusterSize hcs
-      have : chain[32 * i / d.fs.clusterSize] = chain[32 * j / d.fs.clusterSize] := by
+      have hdi := decomp (32 * i) fs.clusterSize hcs
+      have hdj := decomp (32 * j) fs.clusterSize hcs
+      have : chain[32 * i / fs.clusterSize] = chain[32 * j / fs.clusterSize] := by
         congr 1
       rw [this]
       rw [hq] at hdi
-      have hne : 32 * i % d.fs.clusterSize ≠ 32 * j % d.fs.clusterSize := by
+      have hne : 32 * i % fs.clusterSize ≠ 32 * j % fs.clusterSize := by
         intro h; omega
-      have h1 : 32 * i % d.fs.clusterSize % 32 = 0 := by
+      have h1 : 32 * i % fs.clusterSize % 32 = 0 := by
         rw [Nat.mod_mod_of_dvd _ (Nat.dvd_of_mod_eq_zero h32)]; omega
-      have h2 : 32 * j % d.fs.clusterSize % 32 = 0 := by
+      have h2 : 32 * j % fs.clusterSize % 32 = 0 := by
         rw [Nat.mod_mod_of_dvd _ (Nat.dvd_of_mod_eq_zero h32)]; omega
       omega
     · -- different clusters
-      have hcne : chain[32 * i / d.fs.clusterSize] ≠ chain[32 * j / d.fs.clusterSize] := by
+      have hcne : chain[32 * i / fs.clusterSize] ≠ chain[32 * j / fs.clusterSize] := by
         intro h
         exact hq ((List.getElem_inj hnd).mp h)
       rcases Nat.lt_or_gt_of_ne hcne with hlt | hgt
-      · have := clusterOff_lt_of_lt d.fs hci hlt
+      · have := clusterOff_lt_of_lt fs hci hlt
         omega
-      · have := clusterOff_lt_of_lt d.fs hcj hgt
+      · have := clusterOff_lt_of_lt fs hcj hgt
         omega
 
+
+
+theorem ChainCore.slotGeo (C : ChainCore d f0 c0 chain) :
+    SlotGeo (chain.length * (d.fs.clusterSize / 32)) (chainSrc d.fs chain) :=
+  slotGeo_of C.geo C.cs32 (fun x hx => (C.inTab x hx).1) (chain_nodup' C.link)
 
 /-- the hypotheses of a chain directory survive a step that keeps the geometry and the first FAT copy -/
 theorem ChainCore.of_agree {d' : Dev} (C : ChainCore d f0 c0 chain) (hfa : d'.failAt = d.failAt)
@@ -156,13 +162,28 @@ theorem fatAgree_of_writesTo {d' : Dev} {p : Nat} {bs : List Nat} (C : ChainCore
   unfold putBytes
   rw [if_neg (by omega)]
 
-/-- **one `File::write` on a cluster-chain directory without an entry, inside an allocated cluster**: the volume is
-    marked dirty first, then all bytes go to the cluster -/
-theorem ChainCore.file_write (C : ChainCore d f0 c0 chain) (hent : f0.entry = none) (hwf : d.img.WF) (o : Nat)
+/-- the handle after `update_dir_entry_after_write` at clock `t`: the modification stamp of its entry (if it has one) -/
+def stamped (f : FileH) (t : Nat) : FileH :=
+  { f with entry := f.entry.map fun e => e.setModified (clockDateTime t) }
+
+theorem stamped_none (f : FileH) (t : Nat) (h : f.entry = none) : stamped f t = f := by
+  cases f with
+  | mk a b c e =>
+    simp only at h
+    subst h
+    rfl
+
+theorem size?_setModified_ed (e : DirEntryEditor) (dt : DateTime) : (e.setModified dt).data.size? = e.data.size? := by
+  unfold DirEntryEditor.setModified
+  split <;> rfl
+
+/-- **one `File::write` on a cluster-chain directory, inside an allocated cluster**: the volume is marked dirty first,
+    then all bytes go to the cluster; the handle's entry (if any) gets the modification stamp of the clock -/
+theorem ChainCore.file_write (C : ChainCore d f0 c0 chain) (hwf : d.img.WF) (o : Nat)
     (bs : List Nat) (hne : bs ≠ []) (hroom : bs.length ≤ chainRoom d.fs chain o)
     (hfit : o + bs.length ≤ chain.length * d.fs.clusterSize) :
     ∃ d', run ((dirFile f0 chain d.fs.clusterSize o).write bs) d =
-        (.ok (bs.length, dirFile f0 chain d.fs.clusterSize (o + bs.length)), d') ∧
+        (.ok (bs.length, dirFile (stamped f0 d.clock) chain d.fs.clusterSize (o + bs.length)), d') ∧
       WritesTo d d' (chainSrc d.fs chain o) bs ∧ ChainCore d' f0 c0 chain ∧ d'.img.WF := by
   have hcs := C.geo.cs_pos
   have hlen : bs.length ≠ 0 := by
@@ -181,7 +202,7 @@ theorem ChainCore.file_write (C : ChainCore d f0 c0 chain) (hent : f0.entry = no
     have := C.geo.fat_dev
     omega
   -- 1. set_dirty_flag(true)
-  obtain ⟨d1, h1, hs1, hd1, _, hb1⟩ := run_setDirtyFlag_true d C.failAt h42
+  obtain ⟨d1, h1, hs1, hd1, hi1, hb1⟩ := run_setDirtyFlag_true d C.failAt h42
   have hfat1 : FatAgree d.fs d.img d1.img := by
     intro q hq1 _
     have := C.geo.status_lt
@@ -226,7 +247,7 @@ theorem ChainCore.file_write (C : ChainCore d f0 c0 chain) (hent : f0.entry = no
       ⟨rfl, didWrite_img_size _ _, fun hw => by rw [hd3img]; exact Img.wf_write _ hw _ _, FsGeomEq.refl _, rfl⟩
     exact ((hs1.trans (DevStep.of_sameStore hs2)).trans hs3).trans hs4
   have hw : WritesTo d (didWrite d3 bs) (chainSrc d.fs chain o) bs := by
-    refine ⟨hstep, fun _ => ?_, fun _ => ?_, fun hw q hq => ?_⟩
+    refine ⟨hstep, fun _ => ?_, fun _ => ?_, fun hw q hq => ?_, ?_⟩
     · show d2.fs.curDirty = true; rw [hs2.fs]; exact hd1
     · show d2.fs.curDirty = true; rw [hs2.fs]; exact hd1
     · rw [hd3img, Img.getByte_write _ hwf2]
@@ -234,6 +255,7 @@ theorem ChainCore.file_write (C : ChainCore d f0 c0 chain) (hent : f0.entry = no
       split
       · rfl
       · rw [hs2.img]; exact hb1 hw q hq
+    · show d2.fs.fsInfo = _; rw [hs2.fs]; exact hi1
   have hp : d.fs.firstDataSector * d.fs.bps ≤ chainSrc d.fs chain o := by
     rw [hsrc]
     have h1 : d.fs.firstDataSector * d.fs.bps ≤ clusterOff d.fs 2 := by unfold clusterOff; simp
@@ -279,13 +301,32 @@ theorem ChainCore.file_write (C : ChainCore d f0 c0 chain) (hent : f0.entry = no
   rw [run_bind_ok (run_offsetFromClusterP C.geo _ hc2 hct d2), ← hsrc, run_bind_ok (run_seekStart _ d2 hfa2),
     List.take_length, run_bind_ok (run_write bs d3 hfa2), hmin]
   simp only [hlen, if_false]
-  have hupd : FileH.updateAfterWrite (dirFile f0 chain d.fs.clusterSize (o + bs.length)) =
-      Prog.pure (dirFile f0 chain d.fs.clusterSize (o + bs.length)) := by
+  have hclk : (didWrite d3 bs).clock = d.clock := hstep.clock
+  have hupd : run (FileH.updateAfterWrite (dirFile f0 chain d.fs.clusterSize (o + bs.length))) (didWrite d3 bs) =
+      (.ok (dirFile (stamped f0 d.clock) chain d.fs.clusterSize (o + bs.length)), didWrite d3 bs) := by
     unfold FileH.updateAfterWrite
-    have : (dirFile f0 chain d.fs.clusterSize (o + bs.length)).entry = none := hent
-    rw [this]
-    rfl
-  rw [hoff, hnew, hupd]
+    have hent : (dirFile f0 chain d.fs.clusterSize (o + bs.length)).entry = f0.entry := rfl
+    rw [hent]
+    cases he : f0.entry with
+    | none =>
+      have : stamped f0 d.clock = f0 := stamped_none f0 _ he
+      rw [this]; rfl
+    | some e =>
+      have hsz : (e.setModified (clockDateTime d.clock)).data.size? = none := by
+        rw [size?_setModified_ed]
+        have := C.nosize
+        unfold FileH.size? at this
+        rw [he] at this
+        exact this
+      have ht : ∀ dd : Dev, run Prog.now dd = (.ok dd.clock, dd) := fun _ => rfl
+      simp only
+      rw [run_bind_ok (ht _), hclk]
+      simp only [hsz]
+      have : stamped f0 d.clock = { f0 with entry := some (e.setModified (clockDateTime d.clock)) } := by
+        unfold stamped; rw [he]; rfl
+      rw [this]
+      rfl
+  rw [hoff, hnew, run_bind_ok hupd]
   rfl
 
 end chain
